@@ -392,7 +392,11 @@ func stressMain(args []string) {
 	bad := 0
 	for round := 0; round < *rounds; round++ {
 		stuck := false
-		for _, msg := range stressToggles(*seed*1000+int64(round), *workers, *opsPer) {
+		tops := *opsPer
+		if !*togglesOnly && tops > 200 {
+			tops = 200 // (next to the content rounds a short inversion round is enough: C18's own step runs the long ones)
+		}
+		for _, msg := range stressToggles(*seed*1000+int64(round), *workers, tops) {
 			fmt.Printf("STRESS-FAIL round=%d seed=%d %s\n", round, *seed, msg)
 			bad++
 			stuck = stuck || strings.HasPrefix(msg, "DEADLOCK")
